@@ -18,7 +18,9 @@ def gen(rng, tier, ds):
         for j in range(k):
             t = wc.rand_valid(rng, rng.choice([0, 1, 2, 3]), ds)
             if rng.random() < 0.06:
-                t = ("E", b"nosuchcolumn", b"1", 0)              # invalid member
+                t = ("E", b"nosuchcolumn", b"1", 0)              # invalid member: unknown column
+            elif rng.random() < 0.04:                            # invalid member: incomplete tree
+                t = rng.choice([("A", [t, ("U",)]), ("O", [("U",), t]), ("N0",), ("A", [("N", ("O", [t, ("N0",)]))]), ("U",)])
             gb = [rng.choice(wc.COLS + ([b"nosuch"] if rng.random() < 0.03 else [])) for _ in range(rng.choice([0, 0, 1, 2, 3]))]
             qid = rng.choice([0, 0, 0, 1, 2, 7, 7, -4, 2147483647])
             qs.append(wc.enc_q(qid, t, gb))
